@@ -54,4 +54,7 @@ run C32 && mut C32 protocol/chainlib/jsonRPC.go 'extensionInfo.LatestBlock > 126
 run C31 && mut C31 protocol/chainlib/jsonRPC.go '			earliestRequestedBlock = parsedBlock
 		} else {' '		} else {'
 run C39 && mut C39 protocol/rpcprovider/rpcprovider_server.go '	if requestSession.LavaChainId != rpcps.lavaChainID {' '	if requestSession.LavaChainId != rpcps.lavaChainID && requestSession.LavaChainId != "" {'
+run C28 && mut C28 protocol/lavasession/consumer_session_manager.go '	cuToDecrease := consumerSession.LatestRelayCu
+' '	cuToDecrease := consumerSession.LatestRelayCu / 2
+'
 exit 0
